@@ -547,10 +547,37 @@ func (s *clientSocket) onEvent(
 	decode parser.Decode,
 	sendAck ackSendFunc,
 ) (hasAckFunc bool) {
-	values, err := decode(handler.inputArgs...)
+	// With connection state recovery enabled, the server appends the offset of the packet
+	// (a string) after the arguments of every event that carries no ack ID. Decode it
+	// separately from the handler's own arguments and remember it.
+	types := handler.inputArgs
+	_, hasPID := s.pid()
+	expectOffset := hasPID && header.ID == nil
+	numArgs := len(handler.inputArgs)
+	if expectOffset {
+		if ack, _ := handler.ack(); ack {
+			// There is no ack to pass; the offset takes its position in the packet.
+			numArgs--
+		}
+		types = make([]reflect.Type, 0, numArgs+1)
+		types = append(types, handler.inputArgs[:numArgs]...)
+		types = append(types, reflect.TypeOf(""))
+	}
+
+	values, err := decode(types...)
 	if err != nil {
 		s.onError(wrapInternalError(err))
 		return
+	}
+
+	if expectOffset && len(values) == numArgs+1 {
+		if offset := values[numArgs].Elem().String(); offset != "" {
+			s.setLastOffset(offset)
+		}
+		values = values[:numArgs]
+		for len(values) < len(handler.inputArgs) {
+			values = append(values, reflect.New(handler.inputArgs[len(values)]))
+		}
 	}
 
 	if len(values) == len(handler.inputArgs) {
@@ -587,15 +614,6 @@ func (s *clientSocket) callEvent(
 	values []reflect.Value,
 	sendAck ackSendFunc,
 ) (hasAckFunc bool) {
-	// Set the lastOffset before calling the handler.
-	// An error can occur when the handler gets called,
-	// and we can miss setting the lastOffset.
-	_, ok := s.pid()
-	if ok && len(values) > 0 && values[len(values)-1].Kind() == reflect.String {
-		s.setLastOffset(values[len(values)-1].String())
-		values = values[:len(values)-1] // Remove offset
-	}
-
 	ack, _ := handler.ack()
 	if header.ID != nil && ack {
 		hasAckFunc = true
